@@ -15,8 +15,19 @@ Mat n_op(int M, int i) { return cdag_op(M, i) * c_op(M, i); }
 Mat ident(int M) { int D = 1 << M; return Mat::Identity(D, D); }
 
 Mat monomial(int M, const std::vector<std::pair<bool,int> >& seq) {
-    Mat r = ident(M);
-    for (size_t k = 0; k < seq.size(); ++k) r = r * (seq[k].first ? cdag_op(M, seq[k].second) : c_op(M, seq[k].second));
+    // product O_1 O_2 ... O_n built by letting the factors act on every basis state, rightmost factor first
+    // (same matrices as multiplying c_op/cdag_op, without the dense products)
+    int D = 1 << M; Mat r = Mat::Zero(D, D);
+    for (unsigned long s0 = 0; s0 < (unsigned long)D; ++s0) {
+        unsigned long s = s0; int sign = 1; bool dead = false;
+        for (int k = (int)seq.size() - 1; k >= 0 && !dead; --k) {
+            int i = seq[k].second; bool occ = (s >> i) & 1ul;
+            if (seq[k].first == occ) { dead = true; break; }        // creation on occupied / annihilation on empty
+            if (popcount_below(s, i) & 1) sign = -sign;
+            s ^= (1ul << i);
+        }
+        if (!dead) r(s, s0) += double(sign);
+    }
     return r;
 }
 
@@ -118,6 +129,11 @@ std::string selftest() {
         if ((ac - ex).norm() > 1e-14) return "CAR {c,c+}";
         Mat aa = c_op(M, i) * c_op(M, j) + c_op(M, j) * c_op(M, i);
         if (aa.norm() > 1e-14) return "CAR {c,c}";
+    }
+    {   // monomial() against explicit dense products
+        int M = 3; std::vector<std::pair<bool,int> > q; q.push_back(std::make_pair(true, 2)); q.push_back(std::make_pair(false, 0)); q.push_back(std::make_pair(true, 1)); q.push_back(std::make_pair(false, 1));
+        Mat d = cdag_op(M, 2) * c_op(M, 0) * cdag_op(M, 1) * c_op(M, 1);
+        if ((monomial(M, q) - d).norm() > 1e-14) return "monomial";
     }
     // divided differences against the explicit distinct-node formula and against a confluent limit
     {
